@@ -102,6 +102,7 @@ class MemWriter:
         self.write_error = None     # exception to raise from write()
         self.drain_error = None     # exception to raise from drain()
         self.writes_after_close = 0
+        self.wait_closed_hook = None    # async callable() or None: how long the transport takes to finish closing
 
     def write(self, data):
         self.tap.add(data)
@@ -126,6 +127,8 @@ class MemWriter:
                 self.on_close()
 
     async def wait_closed(self):
+        if self.wait_closed_hook is not None:
+            await self.wait_closed_hook()
         return None
 
     def is_closing(self):
